@@ -17,6 +17,7 @@ import (
 
 	ct "github.com/google/certificate-transparency-go"
 	"github.com/google/certificate-transparency-go/asn1"
+	"github.com/google/certificate-transparency-go/trillian/ctfe"
 	"github.com/google/certificate-transparency-go/trillian/ctfe/cache"
 	"github.com/google/trillian"
 	"github.com/google/trillian/types"
@@ -98,7 +99,9 @@ func (c *recCache) Get(ctx context.Context, key []byte) ([]byte, error) {
 	c.mu.Unlock()
 	return v, err
 }
-func (c *recCache) Set(ctx context.Context, key, chain []byte) error { return c.inner.Set(ctx, key, chain) }
+func (c *recCache) Set(ctx context.Context, key, chain []byte) error {
+	return c.inner.Set(ctx, key, chain)
+}
 
 // simpleLog is the backend: stores what QueueLeaf sends and serves it back.
 type simpleLog struct {
@@ -177,13 +180,13 @@ func main() {
 	}{{"noop", cache.Option{}, cache.NOOP}, {"lru1", cache.Option{Size: 1, TTL: time.Hour}, cache.LRU}, {"lru2", cache.Option{Size: 2, TTL: time.Hour}, cache.LRU},
 		{"lru64", cache.Option{Size: 64, TTL: time.Hour}, cache.LRU}, {"lru-ttl1ms", cache.Option{Size: 8, TTL: time.Millisecond}, cache.LRU}}
 	type ienv struct {
-		name  string
-		env   *ctfeenv.Env
-		log   *simpleLog
-		store *memStore
-		cache *recCache
-		want  [][]byte // per leaf index of this instance's log: what the default mode serves for that submission
-		blob  [][]byte // per leaf index: the chain blob its hash stands for (nil for legacy full-chain entries)
+		name     string
+		env      *ctfeenv.Env
+		log      *simpleLog
+		store    *memStore
+		cache    *recCache
+		want     [][]byte          // per leaf index of this instance's log: what the default mode serves for that submission
+		blob     [][]byte          // per leaf index: the chain blob its hash stands for (nil for legacy full-chain entries)
 		poisoned map[[32]byte]bool // chain hashes whose corrupted stored blob was read (and so possibly cached) once
 	}
 	var indirect []*ienv
@@ -640,6 +643,232 @@ func main() {
 			}
 		}
 	}
+	// ---- range phase: get-entries over RANGES.  Fresh instances (the default one and one per cache
+	// kind) are fed the same submissions without any fault, so every instance holds the same entries at
+	// the same indices; chains are shared between submissions (de-duplication, cache hits) and include
+	// the leaf-only path.  Every range length 1..maxLen is read at a random start from every external-
+	// storage instance, a third of them with every cache lookup a miss, and compared ENTRY BY ENTRY
+	// (number of entries, leaf_input, extra_data) with the default instance's answer for the same
+	// request; so are the whole log, requests up to and beyond the configured maximum (the default 1000
+	// and a smaller one that is not a round number) and ranges read while the storage fails or has lost
+	// a chain (an error response or the unaltered entries, never a partial or altered answer).
+	serveRange := func(env *ctfeenv.Env, start, end int) (int, []ct.LeafEntry) {
+		rec := env.Get(ct.GetEntriesPath, fmt.Sprintf("start=%d&end=%d", start, end))
+		var rsp ct.GetEntriesResponse
+		if rec.Code == 200 {
+			if err := json.Unmarshal(rec.Body.Bytes(), &rsp); err != nil {
+				return -1, nil
+			}
+		}
+		return rec.Code, rsp.Entries
+	}
+	{
+		maxLen := lib.Count(70, 150)
+		nEntries := maxLen + 5
+		rdirect, rdirectLog := mkEnv(nil, nil)
+		type renv struct {
+			name  string
+			env   *ctfeenv.Env
+			log   *simpleLog
+			store *memStore
+			cache *recCache
+			blob  [][]byte
+		}
+		var rind []*renv
+		for _, ck := range cacheKinds {
+			inner, err := cache.NewIssuanceChainCache(context.Background(), ck.typ, ck.opt)
+			if err != nil {
+				panic(err)
+			}
+			st := &memStore{m: map[string][]byte{}}
+			rc := &recCache{inner: inner}
+			env, lg := mkEnv(st, rc)
+			rind = append(rind, &renv{name: ck.name, env: env, log: lg, store: st, cache: rc})
+		}
+		// a handful of issuers shared by the submissions
+		type issuer struct {
+			root  *pki.Entity
+			inter []*pki.Entity
+		}
+		var issuers []issuer
+		for k := 0; k < 7; k++ {
+			is := issuer{root: roots[r.Intn(len(roots))]}
+			parent := is.root
+			for d := k % 3; d > 0; d-- {
+				e := pki.Issue(pki.Opts{CN: fmt.Sprintf("range int %d-%d", k, d), IsCA: true, KeyIdx: 1 + r.Intn(3)}, parent)
+				is.inter = append([]*pki.Entity{e}, is.inter...)
+				parent = e
+			}
+			issuers = append(issuers, is)
+		}
+		for i := 0; i < nEntries; i++ {
+			is := issuers[r.Intn(len(issuers))]
+			precert := r.Intn(2) == 0
+			var submit, rest [][]byte
+			if r.Intn(15) == 0 {
+				precert = false
+				submit = [][]byte{is.root.DER} // leaf-only path
+			} else {
+				parent := is.root
+				if len(is.inter) > 0 {
+					parent = is.inter[0]
+				}
+				o := pki.Opts{CN: fmt.Sprintf("range-leaf-%d.example", i), KeyIdx: 5}
+				if precert {
+					o.ExtraExt = append(o.ExtraExt, pki.PoisonExt())
+				}
+				leaf := pki.Issue(o, parent)
+				submit = [][]byte{leaf.DER}
+				for _, e := range is.inter {
+					submit = append(submit, e.DER)
+					rest = append(rest, e.DER)
+				}
+				rest = append(rest, is.root.DER)
+			}
+			if rec := rdirect.AddChain(precert, submit); rec.Code != 200 {
+				panic(fmt.Sprintf("range phase: direct add-chain failed: %d %s", rec.Code, rec.Body.String()))
+			}
+			blob, _ := asn1Chain(rest)
+			for _, ie := range rind {
+				if rec := ie.env.AddChain(precert, submit); rec.Code != 200 {
+					panic(fmt.Sprintf("range phase: indirect add-chain failed: %d %s", rec.Code, rec.Body.String()))
+				}
+				ie.blob = append(ie.blob, blob)
+			}
+		}
+		if len(rdirectLog.leaves) != nEntries {
+			panic("range phase: the default instance does not hold every submission")
+		}
+		time.Sleep(2 * time.Millisecond) // detached cache fills
+		type rreq struct {
+			start, end int
+			kind       string
+			fault      string
+		}
+		oneRange := func(ie *renv, q rreq, evicted bool, coqFor int) {
+			dcode, dents := serveRange(rdirect, q.start, q.end)
+			var saved []byte
+			var lostKey string
+			switch q.fault {
+			case "find-fails":
+				ie.store.failFind = true
+			case "blob-deleted":
+				// the chain of the entry in the middle of the range disappears from the storage
+				mid := (q.start + q.end) / 2
+				if mid >= nEntries {
+					mid = nEntries - 1
+				}
+				h := sha256.Sum256(ie.blob[mid])
+				lostKey = string(h[:])
+				ie.store.mu.Lock()
+				saved = ie.store.m[lostKey]
+				delete(ie.store.m, lostKey)
+				ie.store.mu.Unlock()
+			}
+			ie.cache.mu.Lock()
+			ie.cache.evicted = evicted
+			ie.cache.mu.Unlock()
+			code, ents := serveRange(ie.env, q.start, q.end)
+			ie.cache.mu.Lock()
+			ie.cache.evicted = false
+			ie.cache.mu.Unlock()
+			ie.store.failFind = false
+			if lostKey != "" {
+				ie.store.mu.Lock()
+				ie.store.m[lostKey] = saved
+				ie.store.mu.Unlock()
+			}
+			ok, note, firstBad := true, "", -1
+			where := fmt.Sprintf("get-entries start=%d end=%d (%s, cache %s, evicted %v, fault %s)", q.start, q.end, q.kind, ie.name, evicted, q.fault)
+			switch {
+			case dcode != 200:
+				if code == 200 {
+					ok, note = false, fmt.Sprintf("%s: answered 200 where the default mode answers %d", where, dcode)
+				}
+			case code != 200 && q.fault == "none":
+				ok, note = false, fmt.Sprintf("%s: answered %d without any fault; the default mode serves %d entries", where, code, len(dents))
+			case code >= 400 && code < 500:
+				ok, note = false, fmt.Sprintf("%s: storage fault answered %d", where, code)
+			case code == 200:
+				if len(ents) != len(dents) {
+					ok, note = false, fmt.Sprintf("%s: %d entries served, the default mode serves %d", where, len(ents), len(dents))
+				}
+				for k := 0; k < len(ents) && k < len(dents) && ok; k++ {
+					if !bytes.Equal(ents[k].LeafInput, dents[k].LeafInput) {
+						ok, note, firstBad = false, fmt.Sprintf("%s: leaf_input of entry %d (number %d of %d in the range) differs from the default mode's", where, q.start+k, k+1, len(ents)), k
+					} else if !bytes.Equal(ents[k].ExtraData, dents[k].ExtraData) {
+						ok, note, firstBad = false, fmt.Sprintf("%s: extra_data of entry %d (number %d of %d in the range) differs from the default mode's: %d octets served, %d expected", where, q.start+k, k+1, len(ents), len(ents[k].ExtraData), len(dents[k].ExtraData)), k
+					}
+				}
+			}
+			w.Add(lib.Case{
+				Coq: "", Key: fmt.Sprintf("range-%s-%d-%d-%s-%s-%v", ie.name, q.start, q.end, q.kind, q.fault, evicted),
+				Input:  map[string]interface{}{"op": "serve-range", "cache": ie.name, "start": q.start, "end": q.end, "kind": q.kind, "fault": q.fault, "evicted": evicted, "entries_held": nEntries, "max_get_entries": ctfe.MaxGetEntriesAllowed},
+				Impl:   map[string]interface{}{"status": code, "entries": len(ents), "default_status": dcode, "default_entries": len(dents), "first_differing_position": firstBad},
+				PropOK: ok, Note: note, Tags: []string{"serve-range:" + ie.name + ":" + q.kind + ":" + q.fault + fmt.Sprintf(":%d", code), fmt.Sprintf("range-len:%d", len(dents))},
+			})
+			// tie to the model: the last entry of the answer (and the first differing one), under the
+			// hypothesis the theorem names (the hash resolves to the chain blob it stands for)
+			if code == 200 && q.fault == "none" && len(ents) > 0 {
+				ks := []int{}
+				if coqFor > 0 {
+					ks = append(ks, len(ents)-1)
+				}
+				if firstBad >= 0 && firstBad != len(ents)-1 {
+					ks = append(ks, firstBad)
+				}
+				for _, k := range ks {
+					idx := q.start + k
+					if idx >= nEntries {
+						continue
+					}
+					ie.log.mu.Lock()
+					stored := ie.log.leaves[idx].ExtraData
+					ie.log.mu.Unlock()
+					w.Add(lib.Case{
+						Coq:    fmt.Sprintf("CServe %s (Some (IoOk %s)) (Ok %s)", lib.Bytes(stored), lib.Bytes(ie.blob[idx]), lib.Bytes(ents[k].ExtraData)),
+						Input:  map[string]interface{}{"op": "serve-range-entry", "cache": ie.name, "start": q.start, "end": q.end, "position": k, "kind": q.kind, "evicted": evicted},
+						Impl:   map[string]interface{}{"status": code, "extra_len": len(ents[k].ExtraData)},
+						PropOK: k >= len(dents) || bytes.Equal(ents[k].ExtraData, dents[k].ExtraData), Note: fmt.Sprintf("%s: extra_data of entry %d (number %d of %d in the range) differs from the default mode's", where, idx, k+1, len(ents)), Tags: []string{"serve-range-entry:" + ie.name},
+					})
+				}
+			}
+		}
+		for _, ie := range rind {
+			coqLens := map[int]bool{1: true, 2: true, 7: true, 8: true, 9: true, 31: true, 32: true, 33: true, 39: true, 41: true, 63: true, 64: true, 65: true, 70: true, maxLen: true}
+			for l := 1; l <= maxLen; l++ {
+				start := r.Intn(nEntries - l + 1)
+				c := 0
+				if coqLens[l] || r.Intn(10) == 0 {
+					c = 1
+				}
+				oneRange(ie, rreq{start, start + l - 1, "length", "none"}, r.Intn(3) == 0, c)
+			}
+			// the whole log, and requests the default maximum cuts or the backend answers short
+			oneRange(ie, rreq{0, nEntries - 1, "whole-log", "none"}, r.Intn(2) == 0, 1)
+			oneRange(ie, rreq{0, int(ctfe.MaxGetEntriesAllowed) - 1, "default-maximum", "none"}, r.Intn(2) == 0, 1)
+			oneRange(ie, rreq{nEntries - 3, nEntries + 4, "beyond-the-log", "none"}, false, 0)
+			oneRange(ie, rreq{nEntries, nEntries + 4, "outside-the-log", "none"}, false, 0)
+			// faults while a range is read
+			for _, l := range []int{1 + r.Intn(8), 32 + r.Intn(9), maxLen - r.Intn(8)} {
+				start := r.Intn(nEntries - l + 1)
+				oneRange(ie, rreq{start, start + l - 1, "length", []string{"find-fails", "blob-deleted"}[r.Intn(2)]}, true, 0)
+			}
+		}
+		// a configured maximum that is not a round number: requests of exactly, more than and far more than it
+		defaultMax := ctfe.MaxGetEntriesAllowed
+		for _, m := range []int{33 + r.Intn(30), maxLen - r.Intn(7)} {
+			ctfe.MaxGetEntriesAllowed = int64(m)
+			for _, ie := range rind {
+				oneRange(ie, rreq{0, m - 1, "configured-maximum", "none"}, r.Intn(3) == 0, 1)
+				oneRange(ie, rreq{0, nEntries - 1, "over-configured-maximum", "none"}, r.Intn(3) == 0, 0)
+				s := 1 + r.Intn(4)
+				oneRange(ie, rreq{s, s + m + 7, "over-configured-maximum-unaligned", "none"}, r.Intn(3) == 0, 0)
+				oneRange(ie, rreq{s, s + m - 2, "below-configured-maximum", "none"}, r.Intn(3) == 0, 0)
+			}
+		}
+		ctfe.MaxGetEntriesAllowed = defaultMax
+	}
 	w.Close()
 	fmt.Printf("c14: wrote %d cases\n", w.Len())
 }
@@ -651,7 +880,6 @@ func asn1Chain(rest [][]byte) ([]byte, error) {
 	}
 	return asn1.Marshal(certs)
 }
-
 
 // dIdxFor maps an index of an indirect log to the index of the same submission in the direct log
 // (logs diverge when an injected Add failure dropped a submission): match by LeafValue's certificate.
